@@ -146,7 +146,7 @@ class Serializer(object):
         except:
             logger.exception('Error reading transmission file')
             self.__transmissions.pop(transmissionID, None)
-            return False
+            return None
         size = len(data)
         transmission['transmitted'] += size
         isLast = size == 0
